@@ -1,3 +1,1155 @@
-//! C13 harnesses (see /verif/DESIGN.md section 5).
+//! C13 - TCP options encode and decode faithfully; iteration is bounded.
+//!
+//! The oracle below is an independent, deliberately naive encoder / one-step decoder of the
+//! TCP option formats, written from the RFCs and sharing no code and no constant with
+//! etherparse:
+//!
+//! * RFC 9293 3.1: kind 0 End of Option List (1 byte), kind 1 No-Operation (1 byte),
+//!   kind 2 Maximum Segment Size (length 4, 16 bit value); every other option is
+//!   kind, length (counting kind and length byte), data; the option area is padded with
+//!   zeros to a multiple of 32 bit; the data offset field limits the area to 40 bytes.
+//! * RFC 7323: kind 3 Window Scale (length 3, shift count), kind 8 Timestamps (length 10,
+//!   TSval, TSecr, both 32 bit big endian).
+//! * RFC 2018: kind 4 SACK-Permitted (length 2), kind 5 SACK (length 8*n+2, n blocks of
+//!   left edge / right edge, both 32 bit big endian; at most 4 blocks fit into 40 bytes).
+//!   `TcpOptionElement::SelectiveAcknowledgement` always carries a first block, so n >= 1.
+//!
+//! Conventions of etherparse that the RFCs do not fix and that the oracle takes from the
+//! documentation of the crate: the decoder cannot represent a gap in the optional SACK
+//! blocks, so blocks are compared as the sequence of present blocks; an option kind other
+//! than 0,1,2,3,4,5,8 is reported as `UnknownId(kind)`; iteration ends (returns `None`) at
+//! an End of Option List byte without looking at the bytes behind it.
+//!
+//! Errors are checked for *truthfulness* (see `err_truthful`): every field must state the
+//! real kind / length byte / remaining length. Where two faults are present at once (a
+//! fixed size option whose length byte is wrong AND which does not fit into the remaining
+//! bytes) the documentation of `TcpOptionReadError` allows either error, and so does the
+//! oracle.
 
-crate::harnesses! {}
+use crate::sym::{any, any_le, assume};
+use crate::tight::{inside, off, Tight};
+use crate::witness;
+use etherparse::{
+    TcpHeader, TcpHeaderSlice, TcpOptionElement, TcpOptionReadError, TcpOptionWriteError,
+    TcpOptions, TcpOptionsIterator,
+};
+
+// ================================================================== reference model
+//
+// Style note: the reference is written without array indexing and without `+ - *` on
+// symbolic values (named fields, `match`, destructuring, `wrapping_*`, checked `get`).
+// Every checked operation would add a Kani reachability check whose trace the driver has
+// to keep in memory; the reference has nothing to check anyway.
+
+/// reference form of one option element (SACK gaps do not exist here: blocks b0..b{n-1})
+#[derive(Clone, Copy)]
+pub struct RElem {
+    /// wire kind: 1, 2, 3, 4, 5 or 8
+    kind: u8,
+    /// MSS value (kind 2) or shift count (kind 3), otherwise 0
+    val: u16,
+    /// number of 8 byte blocks: SACK 1..=4, timestamps 1 (TSval, TSecr), otherwise 0
+    n: u8,
+    /// the blocks, unused ones are (0, 0)
+    b0: (u32, u32),
+    b1: (u32, u32),
+    b2: (u32, u32),
+    b3: (u32, u32),
+}
+
+const R_ZERO: RElem = RElem { kind: 0, val: 0, n: 0, b0: (0, 0), b1: (0, 0), b2: (0, 0), b3: (0, 0) };
+const R_NOOP: RElem = RElem { kind: 1, val: 0, n: 0, b0: (0, 0), b1: (0, 0), b2: (0, 0), b3: (0, 0) };
+
+/// field by field equality
+fn same(a: &RElem, b: &RElem) -> bool {
+    a.kind == b.kind
+        && a.val == b.val
+        && a.n == b.n
+        && a.b0.0 == b.b0.0
+        && a.b0.1 == b.b0.1
+        && a.b1.0 == b.b1.0
+        && a.b1.1 == b.b1.1
+        && a.b2.0 == b.b2.0
+        && a.b2.1 == b.b2.1
+        && a.b3.0 == b.b3.0
+        && a.b3.1 == b.b3.1
+}
+
+/// size of the option on the wire
+fn ref_size(e: &RElem) -> usize {
+    match e.kind {
+        1 => 1,
+        2 => 4,
+        3 => 3,
+        4 => 2,
+        // RFC 2018: 8*n + 2
+        5 => match e.n {
+            1 => 10,
+            2 => 18,
+            3 => 26,
+            _ => 34,
+        },
+        _ => 10,
+    }
+}
+
+/// byte `i` (0 = most significant) of a 32 bit value in network byte order
+fn be_byte(v: u32, i: usize) -> u8 {
+    let [b0, b1, b2, b3] = v.to_be_bytes();
+    match i {
+        0 => b0,
+        1 => b1,
+        2 => b2,
+        _ => b3,
+    }
+}
+
+/// reference encoder: byte `t` of the wire image of one element (`t < ref_size(e)`)
+fn ref_byte(e: &RElem, t: usize) -> u8 {
+    if t == 0 {
+        return e.kind;
+    }
+    if t == 1 {
+        // length byte (kind 1 has none and is a single byte)
+        return ref_size(e) as u8;
+    }
+    match e.kind {
+        2 => {
+            let [hi, lo] = e.val.to_be_bytes();
+            if t == 2 {
+                hi
+            } else {
+                lo
+            }
+        }
+        3 => e.val as u8,
+        _ => {
+            // kinds 5 and 8: 8 byte blocks (left edge, right edge / TSval, TSecr) from byte 2 on
+            let i = t.wrapping_sub(2);
+            let blk = match i {
+                0..=7 => e.b0,
+                8..=15 => e.b1,
+                16..=23 => e.b2,
+                _ => e.b3,
+            };
+            // byte i of the block: bytes 0..3 first word, 4..7 second word
+            let word = if i & 4 == 0 { blk.0 } else { blk.1 };
+            be_byte(word, i & 3)
+        }
+    }
+}
+
+const EXHAUSTED: u8 = 0; // no byte left
+const END: u8 = 1; // End of Option List
+const ELEM: u8 = 2; // one well formed option
+const BAD: u8 = 3; // malformed or unknown option
+const BROKEN: u8 = 9; // reference decoder inconsistent with itself (never equal to anything)
+
+/// result of the reference one-step decoder
+#[derive(Clone, Copy)]
+pub struct RDec {
+    st: u8,
+    /// the option (st == ELEM)
+    elem: RElem,
+    /// bytes occupied by it (st == ELEM)
+    used: usize,
+    /// first byte (st != EXHAUSTED)
+    kind: u8,
+    /// bytes that were left
+    rem: usize,
+    /// the length byte if there is one (kinds with a length byte only)
+    lenb: Option<u8>,
+}
+
+fn get32(b: &[u8], at: usize) -> Option<u32> {
+    Some(u32::from_be_bytes([
+        *b.get(at)?,
+        *b.get(at.wrapping_add(1))?,
+        *b.get(at.wrapping_add(2))?,
+        *b.get(at.wrapping_add(3))?,
+    ]))
+}
+
+fn get_block(b: &[u8], at: usize) -> Option<(u32, u32)> {
+    Some((get32(b, at)?, get32(b, at.wrapping_add(4))?))
+}
+
+fn is_known(kind: u8) -> bool {
+    kind == 2 || kind == 3 || kind == 4 || kind == 5 || kind == 8
+}
+
+/// is `l` a length byte an option of this (known, length carrying) kind may have
+fn legal_len(kind: u8, l: u8) -> bool {
+    match kind {
+        2 => l == 4,
+        3 => l == 3,
+        4 => l == 2,
+        8 => l == 10,
+        // RFC 2018: 8*n+2; 1 <= n (element type) and n <= 4 (40 byte area)
+        _ => l == 10 || l == 18 || l == 26 || l == 34,
+    }
+}
+
+/// reference decoder, one step, checked accesses only
+fn ref_step(b: &[u8]) -> RDec {
+    let mut d = RDec { st: EXHAUSTED, elem: R_ZERO, used: 0, kind: 0, rem: b.len(), lenb: None };
+    let kind = match b.first() {
+        None => return d,
+        Some(k) => *k,
+    };
+    d.kind = kind;
+    if kind == 0 {
+        d.st = END;
+        return d;
+    }
+    if kind == 1 {
+        d.st = ELEM;
+        d.elem.kind = 1;
+        d.used = 1;
+        return d;
+    }
+    d.st = BAD; // until the option turns out to be well formed
+    if !is_known(kind) {
+        return d;
+    }
+    d.lenb = b.get(1).copied();
+    let l = match d.lenb {
+        None => return d,
+        Some(l) => l,
+    };
+    if !legal_len(kind, l) || b.len() < l as usize {
+        return d;
+    }
+    // well formed: the option occupies b[..l]
+    let mut e = R_ZERO;
+    e.kind = kind;
+    let ok = match kind {
+        2 => match (b.get(2), b.get(3)) {
+            (Some(h), Some(lo)) => {
+                e.val = u16::from_be_bytes([*h, *lo]);
+                true
+            }
+            _ => false,
+        },
+        3 => match b.get(2) {
+            Some(v) => {
+                e.val = *v as u16;
+                true
+            }
+            None => false,
+        },
+        4 => true,
+        8 => match get_block(b, 2) {
+            Some(x) => {
+                e.n = 1;
+                e.b0 = x;
+                true
+            }
+            None => false,
+        },
+        _ => {
+            // number of blocks = (l - 2) / 8
+            let n: u8 = match l {
+                10 => 1,
+                18 => 2,
+                26 => 3,
+                _ => 4,
+            };
+            e.n = n;
+            let mut ok = true;
+            match get_block(b, 2) {
+                Some(x) => e.b0 = x,
+                None => ok = false,
+            }
+            if n > 1 {
+                match get_block(b, 10) {
+                    Some(x) => e.b1 = x,
+                    None => ok = false,
+                }
+            }
+            if n > 2 {
+                match get_block(b, 18) {
+                    Some(x) => e.b2 = x,
+                    None => ok = false,
+                }
+            }
+            if n > 3 {
+                match get_block(b, 26) {
+                    Some(x) => e.b3 = x,
+                    None => ok = false,
+                }
+            }
+            ok
+        }
+    };
+    // cannot fail: the length was compared with the remaining bytes above
+    d.st = if ok { ELEM } else { BROKEN };
+    d.elem = e;
+    d.used = l as usize;
+    d
+}
+
+/// Does the error state the real kind, length byte and remaining length of the malformed
+/// option `d` (`d.st == BAD`)?
+fn err_truthful(d: &RDec, e: &TcpOptionReadError) -> bool {
+    let known = is_known(d.kind);
+    match *e {
+        // kinds 0 and 1 never reach this point (st is END / ELEM for them)
+        TcpOptionReadError::UnknownId(id) => !known && id == d.kind,
+        TcpOptionReadError::UnexpectedSize { option_id, size } => {
+            known && option_id == d.kind && d.lenb == Some(size) && !legal_len(d.kind, size)
+        }
+        TcpOptionReadError::UnexpectedEndOfSlice { option_id, expected_len, actual_len } => {
+            known
+                && option_id == d.kind
+                && actual_len == d.rem
+                && (expected_len as usize) > d.rem
+                && if d.kind == 5 {
+                    match d.lenb {
+                        // the length byte itself is missing: 2 bytes are needed to read it,
+                        // 10 is the smallest SACK option
+                        None => expected_len == 2 || expected_len == 10,
+                        Some(l) => legal_len(5, l) && expected_len == l,
+                    }
+                } else {
+                    // fixed size kinds: the one size the kind has
+                    legal_len(d.kind, expected_len)
+                }
+        }
+    }
+}
+
+/// the sequence of the present optional SACK blocks behind `first`
+fn sack_ref(first: (u32, u32), rest: &[Option<(u32, u32)>; 3]) -> RElem {
+    let mut r = R_ZERO;
+    r.kind = 5;
+    r.b0 = first;
+    let [p0, p1, p2] = *rest;
+    match (p0, p1, p2) {
+        (None, None, None) => r.n = 1,
+        (Some(a), None, None) | (None, Some(a), None) | (None, None, Some(a)) => {
+            r.n = 2;
+            r.b1 = a;
+        }
+        (Some(a), Some(b), None) | (Some(a), None, Some(b)) | (None, Some(a), Some(b)) => {
+            r.n = 3;
+            r.b1 = a;
+            r.b2 = b;
+        }
+        (Some(a), Some(b), Some(c)) => {
+            r.n = 4;
+            r.b1 = a;
+            r.b2 = b;
+            r.b3 = c;
+        }
+    }
+    r
+}
+
+/// etherparse element -> reference form (SACK: sequence of the present blocks)
+fn norm(e: &TcpOptionElement) -> RElem {
+    let mut r = R_ZERO;
+    match e {
+        TcpOptionElement::Noop => r.kind = 1,
+        TcpOptionElement::MaximumSegmentSize(v) => {
+            r.kind = 2;
+            r.val = *v;
+        }
+        TcpOptionElement::WindowScale(v) => {
+            r.kind = 3;
+            r.val = *v as u16;
+        }
+        TcpOptionElement::SelectiveAcknowledgementPermitted => r.kind = 4,
+        TcpOptionElement::SelectiveAcknowledgement(first, rest) => r = sack_ref(*first, rest),
+        TcpOptionElement::Timestamp(a, b) => {
+            r.kind = 8;
+            r.n = 1;
+            r.b0 = (*a, *b);
+        }
+    }
+    r
+}
+
+/// arbitrary element (all six kinds, every presence pattern of the three optional SACK
+/// blocks including gaps) together with its reference form, both built from the same
+/// symbolic values
+fn any_elem() -> (TcpOptionElement, RElem) {
+    let k: u8 = any();
+    assume(k < 6);
+    let mut r = R_ZERO;
+    let e = match k {
+        0 => {
+            r.kind = 1;
+            TcpOptionElement::Noop
+        }
+        1 => {
+            let v: u16 = any();
+            r.kind = 2;
+            r.val = v;
+            TcpOptionElement::MaximumSegmentSize(v)
+        }
+        2 => {
+            let v: u8 = any();
+            r.kind = 3;
+            r.val = v as u16;
+            TcpOptionElement::WindowScale(v)
+        }
+        3 => {
+            r.kind = 4;
+            TcpOptionElement::SelectiveAcknowledgementPermitted
+        }
+        4 => {
+            let first: (u32, u32) = (any(), any());
+            // presence pattern of the optional blocks: bit i = block i present
+            let p: u8 = any();
+            assume(p < 8);
+            let x: (u32, u32) = (any(), any());
+            let y: (u32, u32) = (any(), any());
+            let z: (u32, u32) = (any(), any());
+            r.kind = 5;
+            r.b0 = first;
+            // written out per pattern: the reference holds the present blocks in order
+            let rest = match p {
+                0 => {
+                    r.n = 1;
+                    [None, None, None]
+                }
+                1 => {
+                    r.n = 2;
+                    r.b1 = x;
+                    [Some(x), None, None]
+                }
+                2 => {
+                    r.n = 2;
+                    r.b1 = y;
+                    [None, Some(y), None]
+                }
+                3 => {
+                    r.n = 3;
+                    r.b1 = x;
+                    r.b2 = y;
+                    [Some(x), Some(y), None]
+                }
+                4 => {
+                    r.n = 2;
+                    r.b1 = z;
+                    [None, None, Some(z)]
+                }
+                5 => {
+                    r.n = 3;
+                    r.b1 = x;
+                    r.b2 = z;
+                    [Some(x), None, Some(z)]
+                }
+                6 => {
+                    r.n = 3;
+                    r.b1 = y;
+                    r.b2 = z;
+                    [None, Some(y), Some(z)]
+                }
+                _ => {
+                    r.n = 4;
+                    r.b1 = x;
+                    r.b2 = y;
+                    r.b3 = z;
+                    [Some(x), Some(y), Some(z)]
+                }
+            };
+            TcpOptionElement::SelectiveAcknowledgement(first, rest)
+        }
+        _ => {
+            let a: u32 = any();
+            let b: u32 = any();
+            r.kind = 8;
+            r.n = 1;
+            r.b0 = (a, b);
+            TcpOptionElement::Timestamp(a, b)
+        }
+    };
+    (e, r)
+}
+
+// ================================================================== symbolic option areas
+
+/// `len <= N` symbolic bytes twice: `data[..len]` on the stack (what the reference reads) and
+/// a copy in a heap object of exactly `len` bytes (what etherparse reads; any access outside
+/// the slice fails a CBMC pointer check). Same tape layout as `Tight::new`.
+struct Area<const N: usize> {
+    data: [u8; N],
+    len: usize,
+    tight: Tight<N>,
+}
+
+fn area<const N: usize>() -> Area<N> {
+    let len = any_le(N);
+    let data: [u8; N] = any();
+    let tight = Tight::<N>::from_bytes(&data[..len]);
+    Area { data, len, tight }
+}
+
+/// `sub` is exactly `outer[at..]` (same address, same length); pointer comparison only
+fn is_suffix_at(outer: &[u8], at: usize, sub: &[u8]) -> bool {
+    at <= outer.len() && sub.len() == outer.len() - at && core::ptr::eq(sub.as_ptr(), outer[at..].as_ptr())
+}
+
+// ================================================================== one decoder step
+
+/// One `next()` of the real iterator against the reference decoder. `model` holds the same
+/// bytes as `it.rest()` (the callers establish that by construction or by an assertion).
+///
+/// Checks: element / error / end exactly where the reference sees them; an element equals
+/// the reference element, consumes exactly its wire size (rest() becomes the suffix behind
+/// it) and its reference re-encoding equals the consumed bytes (tiling); an error is
+/// truthful; after an error or END the iterator is empty.
+fn check_step(it: &mut TcpOptionsIterator<'_>, model: &[u8]) -> RDec {
+    let before = it.rest();
+    assert!(before.len() == model.len());
+    let d = ref_step(model);
+    let got = it.next();
+    let after = it.rest();
+    match d.st {
+        ELEM => {
+            match got {
+                Some(Ok(e)) => {
+                    let r = norm(&e);
+                    assert!(same(&r, &d.elem), "decoded element differs from the reference");
+                    // re-encoding the element gives back exactly the consumed bytes
+                    let t = any_le(33);
+                    assert!(
+                        ref_size(&r) == d.used && (t >= d.used || model.get(t) == Some(&ref_byte(&r, t))),
+                        "element does not tile the consumed bytes"
+                    );
+                }
+                _ => assert!(false, "well formed option must be yielded as an element"),
+            }
+            assert!(is_suffix_at(before, d.used, after), "rest() must be the suffix behind the option");
+        }
+        BAD => {
+            match got {
+                Some(Err(e)) => assert!(err_truthful(&d, &e), "error does not state the real kind/size/remaining length"),
+                _ => assert!(false, "malformed or unknown option must be reported as an error"),
+            }
+            assert!(after.is_empty(), "iterator must be empty after an error");
+        }
+        _ => {
+            // no byte left or End of Option List
+            assert!(got.is_none() && after.is_empty(), "iteration must end (None, empty rest) at END / at the end of the bytes");
+        }
+    }
+    d
+}
+
+/// (b) inductive step: an arbitrary iterator state is an arbitrary slice of at most 40
+/// bytes (the iterator has no state besides `rest()`, asserted below), so one checked
+/// step from every such state decides every step of every iteration.
+pub fn iter_step() {
+    // the whole state of the iterator is the slice returned by rest()
+    assert!(core::mem::size_of::<TcpOptionsIterator<'static>>() == core::mem::size_of::<&[u8]>());
+    let a = area::<40>();
+    let mut it = TcpOptionsIterator::from_slice(a.tight.slice());
+    assert!(is_suffix_at(a.tight.slice(), 0, it.rest()));
+    let d = check_step(&mut it, &a.data[..a.len]);
+    witness!(d.st == END && d.rem > 1, "step_end_with_bytes_behind");
+    witness!(d.st == ELEM && d.used == 34 && d.rem == 34, "step_sack_fills_area_exactly");
+    witness!(d.st == BAD && !is_known(d.kind), "step_unknown_kind");
+    witness!(d.st == BAD && d.kind == 5 && d.lenb == Some(34) && d.rem == 33, "step_sack_34_one_byte_short");
+    witness!(d.st == BAD && is_known(d.kind) && d.lenb.is_none(), "step_length_byte_missing");
+}
+
+/// (b) progress, stated without any oracle: one `next()` either yields an element and
+/// leaves a strict suffix, or (None / error) leaves the iterator empty and exhausted.
+pub fn iter_progress() {
+    let len = any_le(40);
+    let buf = Tight::<40>::new(len);
+    let before = buf.slice();
+    let mut it = TcpOptionsIterator::from_slice(before);
+    let r = it.next();
+    let after = it.rest();
+    match r {
+        Some(Ok(_)) => {
+            witness!(true, "progress_element");
+            assert!(after.len() < before.len(), "an element must consume at least one byte");
+            assert!(
+                is_suffix_at(before, before.len() - after.len(), after),
+                "rest() must be a strict suffix of the previous rest()"
+            );
+        }
+        Some(Err(_)) => {
+            witness!(true, "progress_error");
+            assert!(after.is_empty(), "iterator must be empty after an error");
+            assert!(it.next().is_none() && it.rest().is_empty(), "next() after an error must be None");
+        }
+        None => {
+            witness!(len > 1, "progress_end");
+            assert!(after.is_empty(), "iterator must be empty after None");
+            assert!(it.next().is_none() && it.rest().is_empty(), "next() after None must be None");
+        }
+    }
+}
+
+/// (b) exhausted stays exhausted: an iterator whose rest() is empty (anywhere in or behind
+/// an area) returns None and keeps an empty rest(), three times in a row.
+pub fn iter_exhausted() {
+    let data: [u8; 8] = any();
+    let at = any_le(8);
+    let mut it = TcpOptionsIterator::from_slice(&data[at..at]);
+    assert!(it.next().is_none() && it.rest().is_empty());
+    assert!(it.next().is_none() && it.rest().is_empty());
+    assert!(it.next().is_none() && it.rest().is_empty());
+    let mut it = TcpOptionsIterator::from_slice(&[]);
+    assert!(it.next().is_none() && it.rest().is_empty());
+    assert!(it.next().is_none() && it.rest().is_empty());
+}
+
+/// (b) complete iteration over an arbitrary area of at most N bytes: the elements exactly
+/// tile a prefix (the wire sizes of the yielded elements add up to the position of rest()),
+/// the first None / error ends the iteration after at most N+1 calls, and the iterator
+/// stays exhausted. What each single step yields is decided by `iter_step`; the area lives
+/// on the stack here (exact-size placement is `iter_step`'s job).
+fn iter_walk<const N: usize>() {
+    let len = any_le(N);
+    let data: [u8; N] = any();
+    let whole = &data[..len];
+    let mut it = TcpOptionsIterator::from_slice(whole);
+    let mut pos = 0usize;
+    let mut count = 0usize;
+    let mut err = false;
+    let mut done = false;
+    // every element consumes at least one byte: at most N elements and one final call
+    for _ in 0..=N {
+        if !done {
+            match it.next() {
+                Some(Ok(e)) => {
+                    pos += ref_size(&norm(&e));
+                    count += 1;
+                    assert!(is_suffix_at(whole, pos, it.rest()), "elements must tile a prefix of the area");
+                }
+                Some(Err(_)) => {
+                    err = true;
+                    done = true;
+                    assert!(it.rest().is_empty());
+                }
+                None => {
+                    done = true;
+                    assert!(it.rest().is_empty());
+                }
+            }
+        }
+    }
+    assert!(done && pos <= len, "iteration must end after at most len+1 calls");
+    assert!(it.next().is_none() && it.rest().is_empty(), "iterator must stay exhausted");
+    witness!(count == N && !err, "walk_all_bytes_are_noops");
+    witness!(count >= 3 && err && pos + 2 <= len, "walk_error_behind_three_elements");
+    witness!(count >= 2 && !err && pos == len && len == N && pos > count, "walk_tiles_whole_area");
+}
+
+pub fn iter_walk_6() {
+    iter_walk::<6>()
+}
+pub fn iter_walk_12() {
+    iter_walk::<12>()
+}
+
+// ================================================================== reference lemma
+
+/// Lemma about the reference only (no etherparse code): the reference decoder inverts the
+/// reference encoder whatever follows the option, END and the empty area end the iteration.
+/// With `encode_*` (real encoder = reference encoder) and `iter_step` (real step = reference
+/// step) this composes to the round trip for every list that `encode_*` covers.
+pub fn ref_inverse() {
+    let (_, r) = any_elem();
+    let sz = ref_size(&r);
+    // the option followed by arbitrary bytes, in an area of arbitrary length
+    let mut area: [u8; 40] = any();
+    for t in 0..34 {
+        if t < sz {
+            area[t] = ref_byte(&r, t);
+        }
+    }
+    let total = any_le(40);
+    assume(sz <= total);
+    let d = ref_step(&area[..total]);
+    assert!(d.st == ELEM && d.used == sz && same(&d.elem, &r), "reference decoder must invert the reference encoder");
+    witness!(r.kind == 5 && r.n == 4 && total == 40, "inverse_sack4");
+    witness!(r.kind == 1 && total == 1, "inverse_noop_alone");
+    // END padding and the empty area
+    let mut z: [u8; 4] = any();
+    z[0] = 0;
+    let zl = any_le(4);
+    let dz = ref_step(&z[..zl]);
+    assert!(dz.st == if zl == 0 { EXHAUSTED } else { END });
+}
+
+// ================================================================== (a) encoding
+
+/// reference offsets of the elements and reference size of the list
+fn layout<const K: usize>(refs: &[RElem; K]) -> ([usize; K], usize) {
+    let mut start = [0usize; K];
+    let mut req = 0usize;
+    for i in 0..K {
+        start[i] = req;
+        req += ref_size(&refs[i]);
+    }
+    (start, req)
+}
+
+/// encoded option area against the reference encoding of `refs` (reference size `req` <= 40)
+fn check_bytes<const K: usize>(opts: &TcpOptions, refs: &[RElem; K], start: &[usize; K], req: usize) {
+    let padded = (req + 3) / 4 * 4;
+    let s = opts.as_slice();
+    assert!(s.len() == padded, "length must be the required size rounded up to a multiple of 4");
+    assert!(
+        opts.len() == padded
+            && opts.len_u8() as usize == padded
+            && opts.is_empty() == (padded == 0)
+            && opts.data_offset() as usize == 5 + padded / 4,
+        "len / len_u8 / is_empty / data_offset must describe the padded size"
+    );
+    // every byte of every element (symbolic element index, symbolic byte index)
+    if K > 0 {
+        let j = any_le(K - 1);
+        let t = any_le(33);
+        assume(t < ref_size(&refs[j]));
+        assert!(
+            s.get(start[j].wrapping_add(t)) == Some(&ref_byte(&refs[j], t)),
+            "encoded bytes differ from the reference encoding"
+        );
+    }
+    // only END padding behind the elements
+    let p = any_le(39);
+    assert!(!(req <= p && p < padded) || s.get(p) == Some(&0), "padding must be END (0)");
+}
+
+/// the iterator over an encoded area yields exactly the encoded elements, then only END
+/// padding up to the next multiple of four
+fn check_iteration<const K: usize>(
+    opts: &TcpOptions,
+    mut it: TcpOptionsIterator<'_>,
+    refs: &[RElem; K],
+    start: &[usize; K],
+    req: usize,
+) {
+    let padded = (req + 3) / 4 * 4;
+    let s = opts.as_slice();
+    // the iterator runs over exactly the option bytes
+    let s0 = it.rest();
+    let q = any_le(39);
+    assert!(
+        s0.len() == padded && (q >= padded || s0.get(q) == s.get(q)),
+        "the iterator must run over exactly the option bytes"
+    );
+    for i in 0..K {
+        match it.next() {
+            Some(Ok(e)) => assert!(same(&norm(&e), &refs[i]), "decoded element differs from the encoded one"),
+            _ => assert!(false, "encoded element must decode as an element"),
+        }
+        assert!(is_suffix_at(s0, start[i] + ref_size(&refs[i]), it.rest()));
+    }
+    // ... followed only by END padding up to the next multiple of four
+    let r = it.rest();
+    let z = any_le(3);
+    assert!(
+        r.len() == padded.wrapping_sub(req) && r.len() < 4 && (z >= r.len() || r.get(z) == Some(&0)),
+        "only END padding (< 4 zero bytes) may remain behind the elements"
+    );
+    // (an empty iterator stays exhausted: `iter_exhausted`)
+    assert!(it.next().is_none() && it.rest().is_empty(), "iteration must end at the padding");
+}
+
+/// Encodes the list `elems` and checks the result against the reference of `refs`.
+/// `via`: 0 = `TcpOptions::try_from_elements` (+ `elements_iter`), 1 = `TryFrom<&[TcpOptionElement]>`,
+/// 2 = `TcpHeader::set_options` (+ `TcpHeader::options_iterator`); `decode`: also iterate.
+/// Returns the reference size of the list.
+fn encode_list<const K: usize>(via: u8, decode: bool, elems: &[TcpOptionElement; K], refs: &[RElem; K]) -> usize {
+    let (start, req) = layout(refs);
+    let fits = req <= 40;
+    if via == 2 {
+        let mut h = TcpHeader::default();
+        // previous content that must not shine through
+        h.options = TcpOptions::from(any::<[u8; 40]>());
+        match h.set_options(elems) {
+            Ok(()) => {
+                assert!(fits, "a list that needs more than 40 bytes must be rejected");
+                assert!(
+                    h.data_offset() as usize == 5 + (req + 3) / 4
+                        && h.header_len() == 20 + (req + 3) / 4 * 4
+                        && h.header_len_u16() as usize == h.header_len(),
+                    "data_offset / header_len of the header must include the padded options"
+                );
+                check_bytes(&h.options, refs, &start, req);
+                if decode {
+                    check_iteration(&h.options, h.options_iterator(), refs, &start, req);
+                }
+            }
+            Err(TcpOptionWriteError::NotEnoughSpace(sz)) => {
+                assert!(!fits, "a list that fits into 40 bytes must be accepted");
+                assert!(sz == req, "NotEnoughSpace must state the required size");
+                // the header stays a valid header
+                assert!(h.options.len() <= 40 && h.options.len() % 4 == 0);
+            }
+        }
+    } else {
+        let res = if via == 0 { TcpOptions::try_from_elements(elems) } else { TcpOptions::try_from(&elems[..]) };
+        match res {
+            Ok(opts) => {
+                assert!(fits, "a list that needs more than 40 bytes must be rejected");
+                check_bytes(&opts, refs, &start, req);
+                if decode {
+                    check_iteration(&opts, opts.elements_iter(), refs, &start, req);
+                }
+            }
+            Err(TcpOptionWriteError::NotEnoughSpace(sz)) => {
+                assert!(!fits, "a list that fits into 40 bytes must be accepted");
+                assert!(sz == req, "NotEnoughSpace must state the required size");
+            }
+        }
+    }
+    req
+}
+
+/// list of exactly K arbitrary elements; returns the reference size
+fn encode_exact<const K: usize>(via: u8, decode: bool) -> usize {
+    let mut elems: [TcpOptionElement; K] = core::array::from_fn(|_| TcpOptionElement::Noop);
+    let mut refs = [R_ZERO; K];
+    for i in 0..K {
+        let (e, r) = any_elem();
+        elems[i] = e;
+        refs[i] = r;
+    }
+    encode_list::<K>(via, decode, &elems, &refs)
+}
+
+/// witnesses of the 40 byte boundary (reachable from 3 elements on: 34+4+2, 34+4+3)
+fn boundary_witnesses(req: usize) {
+    witness!(req == 40, "fits_exactly_40");
+    witness!(req == 41, "rejected_41");
+    witness!(req <= 40 && req % 4 == 1, "three_padding_bytes");
+}
+
+/// real encoder = reference encoder (bytes, padding, length, data offset, rejection),
+/// lists of exactly K arbitrary elements
+pub fn encode_k1() {
+    let req = encode_exact::<1>(0, false);
+    witness!(req == 34, "one_full_sack");
+    witness!(req == 1, "one_noop_three_padding_bytes");
+    let req = encode_exact::<1>(1, false);
+    witness!(req == 10, "tryfrom_one_timestamp");
+}
+pub fn encode_k2() {
+    let req = encode_exact::<2>(0, false);
+    witness!(req == 68, "two_full_sacks_rejected");
+    witness!(req == 36, "fits_without_padding");
+    witness!(req == 5, "three_padding_bytes");
+}
+pub fn encode_tryfrom_k2() {
+    let req = encode_exact::<2>(1, false);
+    witness!(req == 44, "rejected_44");
+    witness!(req == 37, "three_padding_bytes");
+}
+pub fn encode_k3() {
+    boundary_witnesses(encode_exact::<3>(0, false));
+}
+pub fn encode_k4() {
+    boundary_witnesses(encode_exact::<4>(0, false));
+}
+pub fn encode_k5() {
+    boundary_witnesses(encode_exact::<5>(0, false));
+}
+pub fn encode_k6() {
+    let req = encode_exact::<6>(0, false);
+    boundary_witnesses(req);
+    witness!(req == 204, "six_full_sacks");
+}
+
+/// the 40 byte boundary with arbitrary elements at quick-tier cost: a SACK option with four
+/// blocks (34 bytes, arbitrary values) followed by two arbitrary elements
+pub fn encode_boundary() {
+    let first: (u32, u32) = (any(), any());
+    let b0: (u32, u32) = (any(), any());
+    let b1: (u32, u32) = (any(), any());
+    let b2: (u32, u32) = (any(), any());
+    let (e1, r1) = any_elem();
+    let (e2, r2) = any_elem();
+    let elems = [TcpOptionElement::SelectiveAcknowledgement(first, [Some(b0), Some(b1), Some(b2)]), e1, e2];
+    let refs = [RElem { kind: 5, val: 0, n: 4, b0: first, b1: b0, b2: b1, b3: b2 }, r1, r2];
+    boundary_witnesses(encode_list::<3>(0, false, &elems, &refs));
+}
+
+/// direct round trip: encode, then iterate the result; lists of exactly K arbitrary elements
+pub fn roundtrip_k0() {
+    // the empty list through all three entry points: no option bytes, data offset 5,
+    // iteration ends immediately
+    let backing = [NOOP, NOOP];
+    let list = &backing[..0];
+    let a = TcpOptions::try_from_elements(list);
+    let b = TcpOptions::try_from(list);
+    let mut h = TcpHeader::default();
+    h.options = TcpOptions::from(any::<[u8; 40]>());
+    let c = h.set_options(list);
+    assert!(c.is_ok());
+    assert!(h.header_len() == 20 && h.data_offset() == 5);
+    match (a, b) {
+        (Ok(a), Ok(b)) => {
+            empty_options(&a, a.elements_iter());
+            empty_options(&b, b.elements_iter());
+            empty_options(&h.options, h.options_iterator());
+        }
+        _ => assert!(false, "the empty list must be accepted"),
+    }
+}
+fn empty_options(o: &TcpOptions, mut it: TcpOptionsIterator<'_>) {
+    assert!(o.len() == 0 && o.len_u8() == 0 && o.is_empty() && o.as_slice().is_empty() && o.data_offset() == 5);
+    assert!(it.rest().is_empty() && it.next().is_none() && it.rest().is_empty());
+}
+pub fn roundtrip_k1() {
+    let req = encode_exact::<1>(0, true);
+    witness!(req == 34, "one_full_sack");
+    witness!(req == 3, "one_padding_byte");
+}
+pub fn roundtrip_k2() {
+    let req = encode_exact::<2>(0, true);
+    witness!(req == 36, "sack3_and_timestamp");
+    witness!(req == 5, "three_padding_bytes");
+}
+pub fn roundtrip_k3() {
+    boundary_witnesses(encode_exact::<3>(0, true));
+}
+
+/// `TcpHeader::set_options` + `TcpHeader::options_iterator`
+pub fn header_roundtrip_k1() {
+    let req = encode_exact::<1>(2, true);
+    witness!(req == 34, "one_full_sack");
+    witness!(req == 3, "one_padding_byte");
+}
+pub fn header_roundtrip_k2() {
+    let req = encode_exact::<2>(2, true);
+    witness!(req == 36, "sack3_and_timestamp");
+    witness!(req == 44, "rejected_44");
+}
+pub fn header_set_options_k3() {
+    boundary_witnesses(encode_exact::<3>(2, false));
+}
+
+const NOOP: TcpOptionElement = TcpOptionElement::Noop;
+
+/// long lists: exactly 38 elements, No-Operation except one arbitrary element at the
+/// given position: 38, 39, 40 bytes fit, 41 and more are rejected
+fn encode_long_at(j: usize) {
+    const K: usize = 38;
+    let mut elems: [TcpOptionElement; K] = [NOOP; K];
+    let mut refs = [R_NOOP; K];
+    let (e, r) = any_elem();
+    elems[j] = e;
+    refs[j] = r;
+    let req = encode_list::<K>(0, false, &elems, &refs);
+    witness!(req == 40, "long_fits_exactly_40");
+    witness!(req == 41, "long_rejected_41");
+}
+pub fn encode_long_first() {
+    encode_long_at(0)
+}
+pub fn encode_long_middle() {
+    encode_long_at(19)
+}
+pub fn encode_long_last() {
+    encode_long_at(37)
+}
+
+/// 40 No-Operations fill the area exactly and decode as 40 elements; 41 are rejected
+pub fn encode_noops() {
+    let e40 = [NOOP; 40];
+    let r40 = [R_NOOP; 40];
+    let a = encode_list::<40>(0, true, &e40, &r40);
+    assert!(a == 40);
+    let e41 = [NOOP; 41];
+    let r41 = [R_NOOP; 41];
+    let b = encode_list::<41>(0, true, &e41, &r41);
+    assert!(b == 41);
+}
+
+// ================================================================== raw areas and headers
+
+/// `o` = `data` zero padded to a multiple of four / rejection of more than 40 bytes
+fn check_raw(res: Result<&TcpOptions, &TcpOptionWriteError>, data: &[u8]) {
+    let len = data.len();
+    match res {
+        Ok(o) => {
+            assert!(len <= 40, "more than 40 bytes must be rejected");
+            let padded = (len + 3) / 4 * 4;
+            let s = o.as_slice();
+            assert!(
+                s.len() == padded
+                    && o.len() == padded
+                    && o.len_u8() as usize == padded
+                    && o.data_offset() as usize == 5 + padded / 4
+                    && o.is_empty() == (len == 0),
+                "len / len_u8 / is_empty / data_offset must describe the length rounded up to a multiple of 4"
+            );
+            let i = any_le(39);
+            assert!(i >= len || s.get(i) == data.get(i), "option bytes must be the given bytes");
+            assert!(i < len || i >= padded || s.get(i) == Some(&0), "padding must be END (0)");
+        }
+        Err(TcpOptionWriteError::NotEnoughSpace(sz)) => {
+            assert!(len > 40, "up to 40 bytes must be accepted");
+            assert!(*sz == len, "NotEnoughSpace must state the required size");
+        }
+    }
+}
+
+/// raw option areas of 0..=44 bytes through `TcpHeader::set_options_raw`; then one checked
+/// step of `TcpHeader::options_iterator`
+pub fn header_set_options_raw() {
+    let a = area::<44>();
+    let len = a.len;
+    let data = a.tight.slice();
+    let mut h = TcpHeader::default();
+    h.options = TcpOptions::from(any::<[u8; 40]>());
+    let r = h.set_options_raw(data);
+    witness!(len == 40, "raw_40_accepted");
+    witness!(len == 41, "raw_41_rejected");
+    witness!(len % 4 == 1 && len < 40, "raw_three_padding_bytes");
+    match &r {
+        Ok(()) => {
+            check_raw(Ok(&h.options), &a.data[..len]);
+            let padded = (len + 3) / 4 * 4;
+            assert!(
+                h.header_len() == 20 + padded && h.data_offset() as usize == 5 + padded / 4,
+                "data_offset / header_len of the header must include the padded options"
+            );
+            // reference image of the option area (the assertion in check_raw ties it to the real one)
+            let mut model = [0u8; 40];
+            model[..len].copy_from_slice(&a.data[..len]);
+            // the iterator of the header runs over exactly the option bytes
+            let mut it = h.options_iterator();
+            assert!(is_suffix_at(h.options.as_slice(), 0, it.rest()));
+            let d = check_step(&mut it, &model[..padded]);
+            witness!(d.st == ELEM && d.elem.kind == 5 && d.elem.n == 4, "raw_step_sack_4_blocks");
+            witness!(d.st == BAD, "raw_step_error");
+        }
+        Err(e) => {
+            check_raw(Err(e), &a.data[..len]);
+            assert!(h.options.len() <= 40 && h.options.len() % 4 == 0);
+        }
+    }
+}
+
+/// raw option areas of 0..=44 bytes through `TcpOptions::try_from_slice` / `TryFrom<&[u8]>`
+pub fn options_from_slice() {
+    let a = area::<44>();
+    let data = a.tight.slice();
+    witness!(a.len == 41, "slice_41_rejected");
+    witness!(a.len == 37, "slice_37_padded");
+    let x = TcpOptions::try_from_slice(data);
+    check_raw(x.as_ref(), &a.data[..a.len]);
+    let y = TcpOptions::try_from(data);
+    check_raw(y.as_ref(), &a.data[..a.len]);
+    if let Ok(o) = &x {
+        let it = o.elements_iter();
+        assert!(is_suffix_at(o.as_slice(), 0, it.rest()));
+    }
+}
+
+macro_rules! from_array {
+    ($($n:literal),*) => {
+        /// `TcpOptions::from([u8; N])`, N = 4, 8, .. 40: bytes, length, data offset, iterator
+        pub fn options_from_array() {
+            let i = any_le(39);
+            $(
+                {
+                    let a: [u8; $n] = any();
+                    let o = TcpOptions::from(a);
+                    assert!(
+                        o.len() == $n && o.as_slice().len() == $n && o.len_u8() == $n && o.data_offset() == 5 + $n / 4,
+                        "length and data offset of the converted array"
+                    );
+                    assert!(i >= $n || o.as_slice().get(i) == a.get(i), "bytes of the converted array");
+                    let it = o.elements_iter();
+                    assert!(is_suffix_at(o.as_slice(), 0, it.rest()), "the iterator must run over the option bytes");
+                }
+            )*
+        }
+    };
+}
+from_array!(4, 8, 12, 16, 20, 24, 28, 32, 36, 40);
+
+/// option area of a sliced TCP header: `TcpHeaderSlice::{options, options_iterator}` cover
+/// exactly the bytes 20 .. 4*data_offset; one checked step on it and on the iterator of
+/// the header decoded from it (`to_header`)
+pub fn header_slice_options() {
+    let a = area::<60>();
+    let len = a.len;
+    let s = a.tight.slice();
+    let r = TcpHeaderSlice::from_slice(s);
+    // RFC 9293: data offset = header length in 32 bit words, at least 5
+    let dof = (a.data[12] >> 4) as usize;
+    if len >= 20 && dof >= 5 && dof * 4 <= len {
+        assert!(r.is_ok(), "header with a valid data offset must be accepted");
+    }
+    if let Ok(hs) = r {
+        assert!(len >= 20 && dof >= 5 && dof * 4 <= len);
+        let end = dof * 4;
+        let olen = end - 20;
+        let o = hs.options();
+        let mut it = hs.options_iterator();
+        let r0 = it.rest();
+        assert!(
+            o.len() == olen
+                && core::ptr::eq(o.as_ptr(), s[20..].as_ptr())
+                && r0.len() == olen
+                && core::ptr::eq(r0.as_ptr(), s[20..].as_ptr()),
+            "options() and options_iterator() must cover the bytes 20 .. 4*data_offset"
+        );
+        let d = check_step(&mut it, &a.data[20..end]);
+        witness!(d.st == EXHAUSTED && len > 20, "slice_no_options_but_payload");
+        witness!(d.st == BAD && d.kind == 8 && d.lenb == Some(10) && d.rem == 8 && len >= 30, "slice_option_reaches_into_payload");
+        witness!(d.st == ELEM && d.elem.kind == 5 && d.elem.n == 4, "slice_sack_4_blocks");
+
+        // decoded header: same option bytes, same iteration
+        let h = hs.to_header();
+        let ho = h.options.as_slice();
+        let q = any_le(39);
+        assert!(
+            ho.len() == olen
+                && h.options.len() == olen
+                && h.data_offset() as usize == dof
+                && (q >= olen || ho.get(q) == a.data.get(q.wrapping_add(20))),
+            "decoded header must carry the option bytes"
+        );
+        let mut it2 = h.options_iterator();
+        assert!(is_suffix_at(ho, 0, it2.rest()));
+        let d2 = check_step(&mut it2, &a.data[20..end]);
+        assert!(d2.st == d.st);
+    }
+}
+
+crate::harnesses! {
+    c13_iter_step = iter_step; unwind 4,
+    c13_iter_progress = iter_progress; unwind 4,
+    c13_iter_exhausted = iter_exhausted; unwind 4,
+    c13_iter_walk_6 = iter_walk_6; unwind 8,
+    c13_iter_walk_12 = iter_walk_12; unwind 14,
+    c13_ref_inverse = ref_inverse; unwind 36,
+    c13_encode_k1 = encode_k1; unwind 4,
+    c13_encode_k2 = encode_k2; unwind 4,
+    c13_encode_tryfrom_k2 = encode_tryfrom_k2; unwind 4,
+    c13_encode_k3 = encode_k3; unwind 4,
+    c13_encode_k4 = encode_k4; unwind 5,
+    c13_encode_k5 = encode_k5; unwind 6,
+    c13_encode_k6 = encode_k6; unwind 7,
+    c13_encode_boundary = encode_boundary; unwind 4,
+    c13_roundtrip_k0 = roundtrip_k0; unwind 4,
+    c13_roundtrip_k1 = roundtrip_k1; unwind 4,
+    c13_roundtrip_k2 = roundtrip_k2; unwind 4,
+    c13_roundtrip_k3 = roundtrip_k3; unwind 4,
+    c13_encode_long_first = encode_long_first; unwind 39,
+    c13_encode_long_middle = encode_long_middle; unwind 39,
+    c13_encode_long_last = encode_long_last; unwind 39,
+    c13_encode_noops = encode_noops; unwind 42,
+    c13_header_roundtrip_k1 = header_roundtrip_k1; unwind 4,
+    c13_header_roundtrip_k2 = header_roundtrip_k2; unwind 4,
+    c13_header_set_options_k3 = header_set_options_k3; unwind 4,
+    c13_header_set_options_raw = header_set_options_raw; unwind 4,
+    c13_options_from_slice = options_from_slice; unwind 4,
+    c13_options_from_array = options_from_array; unwind 4,
+    c13_header_slice_options = header_slice_options; unwind 4,
+}
